@@ -434,7 +434,7 @@ func CheckC15(c *Ctx) (*Outcome, error) {
 			}
 			c.Stats.Add(fmt.Sprintf("c15.umask_%03o", effUmask(g)), 1)
 			cw := g.Cwd
-			if strings.HasPrefix(cw, "sub:") {
+			if strings.HasPrefix(cw, "sub:") || strings.HasPrefix(cw, "sublink:") {
 				cw = "package-dir"
 			} else if cw == "" {
 				cw = "chdir"
@@ -468,20 +468,20 @@ func CheckC15(c *Ctx) (*Outcome, error) {
 		spec := covSpecs[i]
 		w := spec.World("c15cov")
 		var hs []*History
-		forms := []string{"", "abs", "rel", "abs-slash", "symlink", "sub:svc/conv", "chdir-symlink", "symlink-rel", "dotdot-symlink"}
+		forms := []string{"", "abs", "rel", "abs-slash", "symlink", "sub:svc/conv", "chdir-symlink", "symlink-rel", "dotdot-symlink", "sublink:svc/conv"}
 		if c.Tier != "thorough" {
 			forms = []string{forms[i%len(forms)], forms[(i+3)%len(forms)]}
 		}
 		for _, cw := range forms {
 			g := &GenSpec{Plan: planIdentity(), Spec: spec, Expect: "ok", Cwd: cw, Umask: []int{0, 0o027, 0o077}[rng.IntN(3)]}
-			if strings.HasPrefix(cw, "sub:") {
+			if strings.HasPrefix(cw, "sub:") || strings.HasPrefix(cw, "sublink:") {
 				sp := spec.Clone()
-				sp.CwdDir = strings.TrimPrefix(cw, "sub:")
+				sp.CwdDir = strings.TrimPrefix(strings.TrimPrefix(cw, "sub:"), "sublink:")
 				g.Spec = sp
 			}
 			hs = append(hs, &History{World: w, Loc: rng.IntN(len(locNames)), Ops: []Op{genOp(g)}})
 		}
-		if i%6 == 0 || len(spec.LineDirectives) > 0 {
+		if i%6 == 0 || len(spec.LineDirectives) > 0 || len(spec.Cgo) > 0 {
 			// the user's environment carries build flags that make the go command hand out
 			// instrumented copies of the sources (GOFLAGS=-cover)
 			g := &GenSpec{Plan: planIdentity(), Spec: spec, Expect: "ok", Env: map[string]string{"GOFLAGS": "-cover"}}
